@@ -284,6 +284,6 @@ META = {
     "technique": "who-may-call and dominance for the launch path (virtual dispatch resolved; generated operator() overloads parsed from the synthesised codegen header); guard dominance and ordering inside setupRun; assignment/flow facts for metadata on the fresh and cached routes",
     "level": "Static decision that every launch (the 129 generated call operators, run(args), run()) passes modeKernel_t::setupRun before the backend's run, that setupRun establishes argc == metaArgc before indexing the metadata, "
              "raises for both directions of pointer/non-pointer mismatch and checks memory dtypes with canBeCastedTo at the matching index, that validation is on by default, and that fresh and cached kernels both get "
-             "metadata for the requested kernel, produced from isPointerType()/dtype() of every non-implicit argument in order (JSON keys: C11).",
+             "metadata for the requested kernel, produced from isPointerType()/dtype() of every non-implicit argument in order (JSON keys: C11), and that the flattened dtype canBeCastedTo compares is built by structural recursion (every component, once per tuple entry).",
     "note": "Does not decide the cast lattice computed by dtype_t::canBeCastedTo nor vartype_t::isPointerType (value-level over types).",
 }
